@@ -520,5 +520,32 @@ func vfGenAPISpecs(tier string, seed uint64, race bool) []vfSpec {
 }
 
 func init() { //nolint:gochecknoinits
-	vfRegister(&vfProperty{id: "C18", list: vfGenAPISpecs, run: vfRunAPIProgram})
+	vfRegister(&vfProperty{
+		id: "C18",
+		list: func(tier string, seed uint64, race bool) []vfSpec {
+			out := vfGenAPISpecs(tier, seed, race)
+			// real-time scenarios (two writers on one stream in blocking-write mode cannot run in virtual time)
+			n := vfTierN(tier, 8, 60)
+			if race {
+				n = 2
+			}
+			for i := 0; i < n; i++ {
+				r := vfNewRand(vfHash(seed, uint64(i), 0x187))
+				sp := vfSpec{Prop: "C18", Kind: "rt-block-deadline", ID: fmt.Sprintf("C18-rt-%d", i), Seed: r.Uint64()}
+				sp.A.IL, sp.B.IL = i%2 == 1, i%2 == 1
+				sp.X = map[string]int64{"deadline_ms": int64(r.Pick(150, 300, 600))}
+				out = append(out, sp)
+			}
+
+			return out
+		},
+		run: func(t *testing.T, spec *vfSpec, res *vfRes) {
+			if spec.Kind == "rt-block-deadline" {
+				vfRunRTBlockDeadline(t, spec, res)
+
+				return
+			}
+			vfRunAPIProgram(t, spec, res)
+		},
+	})
 }
